@@ -36,12 +36,13 @@ Definition is_lit (e : expr) : bool := match e with ELit _ => true | _ => false 
 
 Fixpoint sh_e (e : expr) {struct e} : list expr :=
   match e with
-  | ELit (LNum n z) => if (Z.ltb 1 z) then [ELit (LNum n 0); ELit (LNum n 1); ELit (LNum n (Z.div z 2))]
+  | ELit (LNum n z) => if (Z.ltb 7 z) then [ELit (LNum n 0); ELit (LNum n 1); ELit (LNum n 7)]
+                       else if (Z.ltb 1 z) then [ELit (LNum n 0); ELit (LNum n 1)]
                        else if Z.eqb z 1 then [ELit (LNum n 0)] else []
   | ELit (LBool _) => []
   | ELit (LStr s) => match s with
                      | EmptyString => []
-                     | String c r => [ELit (LStr EmptyString); ELit (LStr r)]
+                     | String c r => [ELit (LStr EmptyString)]
                      end
   | EGlob _ | ELoc _ => default_lits
   | EPrim p args =>
